@@ -195,9 +195,18 @@ def lazies_state():
 # log capture and catch-all detection
 # ---------------------------------------------------------------------------
 
+import threading as _threading  # noqa: E402
+
+
 class LogCapture:
+    """Thread-aware: records are kept per serving thread."""
+
     def __init__(self):
-        self.records = []
+        self.by_thread = {}
+
+    @property
+    def records(self):
+        return self.by_thread.setdefault(_threading.get_ident(), [])
 
     def __call__(self, message):
         self.records.append(message)
@@ -213,7 +222,11 @@ class _CatchAllProxy:
     one a protocol turned into an error reply."""
 
     def __init__(self):
-        self.caught = []
+        self.by_thread = {}
+
+    @property
+    def caught(self):
+        return self.by_thread.setdefault(_threading.get_ident(), [])
 
     def log(self, exception, protocol=None, handler=None):
         self.caught.append(exception)
@@ -247,7 +260,15 @@ class _PMProxy:
     """Records which protocol object the multiplexer handed to the connection handler."""
 
     def __init__(self):
-        self.last = None
+        self.by_thread = {}
+
+    @property
+    def last(self):
+        return self.by_thread.get(_threading.get_ident())
+
+    @last.setter
+    def last(self, v):
+        self.by_thread[_threading.get_ident()] = v
 
     def getProtocol(self, *a, **k):
         self.last = None
